@@ -22,6 +22,7 @@ AsDef == {<<1,100>>, <<1,1>>, <<5,2>>}
 BsDef == {<<1,100>>, <<1,1>>, <<3,1>>}
 AlDef == {<<1,10>>, <<1,1>>, <<7,2>>}
 LsDef == {<<1,10>>, <<1,1>>, <<5,1>>}
+ExtraDef == {<<172, 172>>, <<200, 400>>, <<500, 2000>>}
 ====
 """
 
@@ -81,6 +82,117 @@ def law_test(ck, conc):
                 worst, N, a, b, alpha, K, n), {"a": a, "b": b, "alpha": alpha, "K": K, "n": n, "ks": worst})
 
 
+def exact_cdf(g, a, b, alpha, K, n, quad):
+    """Exact one-step transition CDF of the update at g (Gauss-Legendre over eta)."""
+    import numpy as np
+    from scipy import stats
+    eta, w = quad
+    s = a + K - 1
+    r = b - np.log(eta)
+    x = s / (n * r)
+    pi = x / (1 + x)
+    dens = stats.beta.pdf(eta, alpha + 1, n) * w
+    dens = dens / dens.sum()
+    return float(np.sum(dens * (pi * stats.gamma.cdf(g, s + 1, scale=1.0 / r) + (1 - pi) * stats.gamma.cdf(g, s, scale=1.0 / r))))
+
+
+def sequence_law_test(ck, conc):
+    """ONE sampler object used for a long sequence of calls in which K and n change from call to call (as in a run with
+    outlier modelling) and each call continues from the value the previous call returned.  Probability integral
+    transform: u_t = F(new_t | old_t, K_t, n_t) with the exact one-step CDF must be uniform on (0, 1) - whatever the
+    history of the object."""
+    import numpy as np
+    nodes, weights = np.polynomial.legendre.leggauss(600)
+    quad = (0.5 * (nodes + 1.0), 0.5 * weights)
+    a, b = 1.0, 1.0
+    schedule = [(2, 30), (2, 2), (1, 5), (3, 40), (3, 3), (2, 12)]
+    rng = np.random.default_rng(7000 + ck.seed)
+    sampler = conc.GammaPriorConcentrationSampler(a, b, rng=rng)
+    N = 3000
+    alpha = 1.0
+    us = {kn: [] for kn in schedule}
+    for t in range(N):
+        K, n = schedule[t % len(schedule)]
+        new = float(sampler.sample(alpha, K, n))
+        if new > 1e-10 * (1 + 1e-6):
+            us[(K, n)].append(exact_cdf(new, a, b, alpha, K, n, quad))
+        alpha = min(max(new, 1e-3), 50.0) if not (1e-3 <= new <= 50.0) else new      # keep the chain in a range where the quadrature is accurate
+    ck.evaluations += N
+    for kn, u in us.items():
+        u = np.sort(np.array(u))
+        m = len(u)
+        if m < 100:
+            continue
+        d = float(np.max(np.maximum(np.arange(1, m + 1) / m - u, u - np.arange(0, m) / m)))
+        ck.extra.setdefault("sequence_ks", {})["K=%d,n=%d" % kn] = d
+        ck.nontrivial("sequence_law:%s" % (kn,))
+        if d > 4.0 / math.sqrt(m):            # p < 1e-13 for a correct sampler
+            ck.violation("C13|law|sequence", "one sampler object called in sequence with changing (K, n): the new values for K=%d n=%d are not distributed as the exact update from the value passed in (PIT sup-distance %.3f over %d calls)" % (
+                kn[0], kn[1], d, m), {"K": kn[0], "n": kn[1], "ks": d, "calls": m})
+
+
+class DuckRNG:
+    """Minimal numpy-Generator look-alike with scripted uniforms (for updates that draw from the generator directly)."""
+
+    def __init__(self, u):
+        self.u = u
+        self.calls = []
+
+    def random(self, size=None):
+        self.calls.append(("random",))
+        return self.u
+
+    def uniform(self, low=0.0, high=1.0, size=None):
+        self.calls.append(("uniform", low, high))
+        return low + (high - low) * self.u
+
+    def beta(self, a, b, size=None):
+        self.calls.append(("beta", float(a), float(b)))
+        return 0.3
+
+    def gamma(self, shape, scale=1.0, size=None):
+        self.calls.append(("gamma", float(shape), float(scale)))
+        return 0.9
+
+    def standard_gamma(self, shape, size=None):
+        self.calls.append(("gamma", float(shape), 1.0))
+        return 0.9
+
+    def binomial(self, n, p, size=None):
+        self.calls.append(("binomial", n, float(p)))
+        return int(self.u < p) if p == p else 0
+
+
+def large_k_reachability(ck, conc):
+    """For hundreds of clones both mixture components must be reachable (an update that draws from the generator
+    directly is driven with a uniform near 0 and near 1; with the recording stubs in place this is decided by the mixture
+    weight itself)."""
+    for a, b, alpha, K, n in ((1.0, 1.0, 1.5, 200, 400), (0.5, 2.0, 0.7, 172, 172), (2.5, 0.01, 3.0, 500, 2000)):
+        shapes = set()
+        skipped = False
+        for u in (1e-12, 1 - 1e-12):
+            rng = DuckRNG(u)
+            try:
+                with np_errstate():
+                    conc.GammaPriorConcentrationSampler(a, b, rng=rng).sample(alpha, K, n)
+            except Exception:  # noqa - scipy refuses the look-alike (the unchanged code draws through scipy: judged by the stubs) or another API is used
+                skipped = True
+                break
+            shapes |= {round(c[1], 9) for c in rng.calls if c[0] == "gamma"}
+        if skipped:
+            continue
+        ck.evaluations += 2
+        s = a + K - 1
+        if not ({round(s, 9), round(s + 1, 9)} <= shapes):
+            ck.violation("C13|large_k|component_unreachable", "K=%d n=%d: driving the update with a uniform near 0 and near 1 reaches Gamma shapes %s only; the mixture has the components %s and %s" % (
+                K, n, sorted(shapes), s, s + 1), {"a": a, "b": b, "alpha": alpha, "K": K, "n": n, "shapes": sorted(shapes)})
+
+
+def np_errstate():
+    import numpy as np
+    return np.errstate(all="ignore")
+
+
 def run(corrupt=None):
     ck = Check("C13")
     env.use_repo()
@@ -89,7 +201,7 @@ def run(corrupt=None):
     from phyclone.tree import FSCRPDistribution, TreeJointDistribution
 
     thorough = ck.tier == "thorough"
-    cfg = tlc.cfg_text(constants={"As": "<- AsDef", "Bs": "<- BsDef", "Alphas": "<- AlDef", "Ls": "<- LsDef", "MaxN": (9 if thorough else 6),
+    cfg = tlc.cfg_text(constants={"As": "<- AsDef", "Bs": "<- BsDef", "Alphas": "<- AlDef", "Ls": "<- LsDef", "MaxN": (9 if thorough else 6), "ExtraKN": "<- ExtraDef",
                                   "ShapeOffByOne": "FALSE", "Dump": "TRUE"}, invariants=["MixtureIdentity", "PiIsProbability", "Emit"])
     r = tlc.run_tlc("c13_conc", "MC_Conc", cfg, mc_text=MC, timeout=600)
     tlc.require_ok(r, "Concentration")
@@ -107,7 +219,8 @@ def run(corrupt=None):
     ck.add_tlc("Chain.tla AlphaOnlyAtConc / EntriesCurrent", rc)
 
     # ---- parameter wiring on the grid
-    saved = (conc.beta, conc.bernoulli, conc.gamma)
+    _missing = object()
+    saved = tuple(getattr(conc, nm_, _missing) for nm_ in ("beta", "bernoulli", "gamma"))
     rng_token = object()
     structure_changed = []
     try:
@@ -154,12 +267,19 @@ def run(corrupt=None):
                     ck.violation("C13|return", "sample() returned %r, the gamma variate was %r" % (out, g), rep)
             ck.nontrivial(json.dumps(rec, sort_keys=True))
     finally:
-        conc.beta, conc.bernoulli, conc.gamma = saved
+        for nm_, val_ in zip(("beta", "bernoulli", "gamma"), saved):
+            if val_ is _missing:
+                if hasattr(conc, nm_):
+                    delattr(conc, nm_)
+            else:
+                setattr(conc, nm_, val_)
     ck.sample({"grid_point": r.json_prints[len(r.json_prints) // 2]})
     if structure_changed:
         ck.note("parameter-level comparison not applicable on %d calls (different draw structure, e.g. %s); the distribution-level test decides" % (
             len(structure_changed), structure_changed[0][:120]))
     law_test(ck, conc)
+    sequence_law_test(ck, conc)
+    large_k_reachability(ck, conc)
 
     # ---- (K, n) extraction and storing of the new value
     class Rec:
